@@ -32,9 +32,21 @@ type Event struct {
 	Panic  bool     `json:"panic"`
 	Mut    bool     `json:"mut"`
 	Stages []string `json:"stages"`
+	Msg    string   `json:"msg"` // the error text (foreign bytes abstracted)
 	RawHex []string `json:"rawhex,omitempty"` // the exact argument bytes (expression, then list), when abstraction changed them
 	RawE   string   `json:"-"`
 	RawA   []string `json:"-"`
+}
+
+// printable keeps printable ASCII and maps every other byte to '#'
+func printable(s string) string {
+	b := []byte(s)
+	for i, c := range b {
+		if c < 0x20 || c > 0x7e {
+			b[i] = '#'
+		}
+	}
+	return string(b)
 }
 
 func absAll(l []string) []string {
@@ -62,6 +74,7 @@ func eventOf(o Obs, e string, a []string) Event {
 		Off: -1, Stages: st, RawE: e, RawA: a}
 	if o.Err {
 		ev.Off, ev.Lex = errOffset(o.ErrText)
+		ev.Msg = printable(o.ErrText)
 	}
 	changed := ev.E != e
 	for i := range a {
